@@ -29,7 +29,7 @@ pub const MIN_FINAL_CLTV_EXPIRY_DELTA: u16 = HTLC_FAIL_BACK_BUFFER as u16 + 3;
 
 
 pub enum LocalHTLCFailureReason { FeeInsufficient, IncorrectCLTVExpiry, CLTVExpiryTooSoon, CLTVExpiryTooFar, OutgoingCLTVTooSoon, AmountBelowMinimum, UnknownNextPeer }
-pub struct UpdateAddHTLC { pub amount_msat: u64, pub cltv_expiry: u32 }
+pub struct UpdateAddHTLC { pub htlc_id: u64, pub amount_msat: u64, pub cltv_expiry: u32, pub skimmed_fee_msat: Option<u64> }   // (every numeric field of the message, so that a change reading another one is verified)
 #[derive(Clone, Copy)]
 pub struct ChannelConfig { pub forwarding_fee_proportional_millionths: u32, pub forwarding_fee_base_msat: u32, pub cltv_expiry_delta: u16 }
 pub struct ChannelContext { pub cfg: ChannelConfig, pub prev: Option<ChannelConfig>, pub counterparty_htlc_minimum_msat: u64 }
